@@ -57,10 +57,98 @@ def numeric_counterexample(conds, goal, leaves, tries=400):
     return None
 
 
-def solve_goal(conds, goal, timeout_ms):
+def has_quantifier(terms):
+    seen = set()
+    stack = list(terms)
+    while stack:
+        t = stack.pop()
+        if t.get_id() in seen:
+            continue
+        seen.add(t.get_id())
+        if z3.is_quantifier(t):
+            return True
+        stack.extend(t.children())
+    return False
+
+
+_TRANSCENDENTAL = {'cos', 'sin', 'sqrt', 'cabs', 'carg', 'exp', 'log10', 'round'}
+
+
+def mentions_transcendental(t):
+    seen, stack = set(), [t]
+    while stack:
+        x = stack.pop()
+        if x.get_id() in seen:
+            continue
+        seen.add(x.get_id())
+        if z3.is_app(x) and x.decl().name() in _TRANSCENDENTAL:
+            return True
+        if z3.is_quantifier(x):
+            stack.append(x.body())
+        else:
+            stack.extend(x.children())
+    return False
+
+
+def solve_quantified(conds, goal, timeout_ms, bigsums=()):
+    """Goals over abstract sequences: plain SMT with quantifier instantiation; sums get their extensionality facts first.
+    First attempt without the quantified axiom instances of cos/sin/... (dropping assumptions is sound for a proof and
+    keeps non-linear arithmetic out of the quantifier instantiation); second attempt with everything."""
+    from . import seq
+    t0 = time.time()
+    if not bigsums and not mentions_transcendental(goal):
+        light = [c for c in conds if not (z3.is_quantifier(c) and mentions_transcendental(c))]
+        if len(light) < len(conds):
+            st, model, ms, be = solve_plain(light + [z3.Not(goal)], max(1000, timeout_ms // 3))
+            if st == 'unsat':
+                return st, model, ms, be + ' (structural facts only)'
+    facts = []
+    if bigsums:
+        saved = list(seq.BIGSUMS)
+        seq.BIGSUMS[:] = list(bigsums)
+        try:
+            facts = seq.extensionality_facts(lambda a: solve_plain(list(conds) + a, min(timeout_ms, 3000))[0])
+        finally:
+            seq.BIGSUMS[:] = saved
+    st, model, ms, be = solve_plain(list(conds) + facts + [z3.Not(goal)], timeout_ms)
+    return st, model, int((time.time() - t0) * 1000), be + ('+sum-extensionality' if facts else '')
+
+
+def solve_plain(assertions, timeout_ms):
+    t0 = time.time()
+    s = z3.Solver()
+    s.set('timeout', timeout_ms)
+    s.add(*background())
+    s.add(*assertions)
+    r = s.check()
+    ms = int((time.time() - t0) * 1000)
+    if r == z3.unsat:
+        return 'unsat', None, ms, 'z3(quantifiers)'
+    if r == z3.sat:
+        return 'sat', s.model(), ms, 'z3(quantifiers)'
+    if os.path.exists('/usr/bin/cvc5'):
+        try:
+            with tempfile.NamedTemporaryFile('w', suffix='.smt2', delete=False) as f:
+                f.write(s.to_smt2())
+                fn = f.name
+            try:
+                out = subprocess.run(['/usr/bin/cvc5', f'--tlimit={timeout_ms}', fn], capture_output=True, text=True,
+                                     timeout=timeout_ms / 1000 + 5).stdout.strip().splitlines()
+            finally:
+                os.unlink(fn)
+            if out and out[0] == 'unsat':
+                return 'unsat', None, int((time.time() - t0) * 1000), 'cvc5(quantifiers)'
+        except Exception:
+            pass
+    return 'unknown', None, int((time.time() - t0) * 1000), 'z3(quantifiers)'
+
+
+def solve_goal(conds, goal, timeout_ms, bigsums=()):
     """Discharge conds => goal.  Equality atoms that are identities of rational functions are decided by the ring
     back end (polynomial normalisation) first; the residual goal goes to the SMT solvers."""
     from . import ring
+    if bigsums or has_quantifier(list(conds) + [goal]):
+        return solve_quantified(conds, goal, timeout_ms, bigsums)
     t0 = time.time()
     stats = {}
     g2 = goal
@@ -133,6 +221,7 @@ def solve(assertions, timeout_ms, want_model=True, use_cvc5=True):
 class Engine:
     def __init__(self, repo_src, verif_dir, sidecar_pkg='contracts'):
         self.repo_src = repo_src
+        self.verif_dir = verif_dir
         self.u = Universe({'CircuitCalculator': repo_src, sidecar_pkg: verif_dir})
         self.I = self.u.interp
         self.sidecar_pkg = sidecar_pkg
@@ -264,6 +353,8 @@ class Engine:
         cls = c['cls']
         rec = PathRecord()
         g = SymGen()
+        from . import seq
+        seq.reset()
         inputs = I.call(cls.lookup('inputs'), [g], {})
         inputs = force(inputs)
         if not isinstance(inputs, IDict):
@@ -290,7 +381,8 @@ class Engine:
         total = truth(cls.lookup('total')) if cls.has('total') else False
         # frame
         if not (cls.has('frame') and cls.lookup('frame') is False):
-            rec.clauses['frame'] = same_state(snap, kwargs)
+            rec.clauses['frame'] = z3.simplify(z3.And(same_state(snap, kwargs), seq.frame_clause()))
+        rec.bigsums = list(seq.BIGSUMS)
         # raises
         declared = []
         if cls.has('raises'):
@@ -423,7 +515,10 @@ class Engine:
                 vac['queries'].append({'path': w[0], 'result': 'sat', 'ms': 0, 'backend': 'numeric witness (zeval)', 'expect': 'sat'})
                 out['pre_witness'] = w[1]
             for pi, (conds, rec) in enumerate(recs[:8] if vac['status'] != 'discharged' else []):
-                st, model, ms, be = solve(conds, min(timeout_ms, 5000))
+                if has_quantifier(conds):
+                    st, model, ms, be = solve_plain(list(conds), min(timeout_ms, 1500))
+                else:
+                    st, model, ms, be = solve(conds, min(timeout_ms, 5000))
                 vac['ms'] += ms
                 vac['queries'].append({'path': pi, 'result': st, 'ms': ms, 'backend': be, 'expect': 'sat'})
                 if st == 'sat':
@@ -436,6 +531,17 @@ class Engine:
                     vac['status'] = 'discharged'
                     vac['queries'].append({'path': w[0], 'result': 'sat', 'ms': 0, 'backend': 'numeric witness (zeval)', 'expect': 'sat'})
                     out['pre_witness'] = w[1]
+            if vac['status'] != 'discharged' and any(kind == 'list' for kind, _ in recs[0][1].leaves.values()):
+                # satisfiability of a quantified precondition is often `unknown` to the solver: a CPython run of the real
+                # function on random inputs that satisfy `requires` is an equally good witness
+                try:
+                    from . import xcheck
+                    r = xcheck.run_native([{'sidecar': c['module'], 'contract': c['name'], 'random': 60, 'seed': 5}], self.repo_src, self.verif_dir)[0]
+                    if r.get('pre_held', 0) > 0:
+                        vac['status'] = 'discharged'
+                        vac['queries'].append({'path': None, 'result': 'sat', 'ms': 0, 'backend': f'CPython witness ({r["pre_held"]} of {r["tried"]} random inputs satisfy requires)', 'expect': 'sat'})
+                except Exception as e:      # noqa
+                    out['notes'].append('native witness search failed: ' + str(e)[:200])
             if vac['status'] != 'discharged' and all(q['result'] == 'unsat' for q in vac['queries']) and len(recs) <= 8:
                 vac['status'] = 'failed'
                 vac['reason'] = 'every path is infeasible (vacuous contract)'
@@ -448,7 +554,16 @@ class Engine:
                 if z3.is_true(goal):
                     o['queries'].append({'path': pi, 'result': 'trivial', 'ms': 0, 'backend': 'simplifier'})
                     continue
-                st, model, ms, be = solve_goal(conds, goal, timeout_ms)
+                st, model, ms, be = solve_goal(conds, goal, timeout_ms, getattr(rec, 'bigsums', ()))
+                if st == 'sat':
+                    lens = [t['len'] for kind, t in rec.leaves.values() if kind == 'list']
+                    for bound in (2, 4):
+                        if not lens:
+                            break
+                        st2, model2, _, _ = solve_plain(list(conds) + [z3.Not(goal)] + [l <= bound for l in lens], min(timeout_ms, 5000))
+                        if st2 == 'sat':       # prefer a short list as counterexample
+                            model = model2
+                            break
                 num_ce = None
                 if st == 'unknown':
                     num_ce = numeric_counterexample(conds, goal, rec.leaves)
@@ -530,6 +645,21 @@ class Engine:
                 label_vals[name] = num(t)
             elif kind == 'custom':
                 res[name] = {'kind': 'custom', 'value': t(model)}
+            elif kind == 'list':
+                n = num(t['len'])
+                n = 0 if n is None else max(0, min(int(n), 8))
+                res[name + '.len'] = {'kind': 'int', 'value': n}
+                for i in range(n):
+                    for sub, (k2, f) in t['subs'].items():
+                        key = f'{name}[{i}].{sub}'
+                        if k2 in ('real', 'int', 'choice'):
+                            res[key] = {'kind': k2, 'value': num(f(z3.IntVal(i)))}
+                        elif k2 == 'complex':
+                            res[key] = {'kind': 'complex', 'value': [num(f[0](z3.IntVal(i))), num(f[1](z3.IntVal(i)))]}
+                        elif k2 == 'bool':
+                            res[key] = {'kind': 'bool', 'value': bool(z3.is_true(model.eval(f(z3.IntVal(i)), model_completion=True)))}
+                        elif k2 == 'label':
+                            label_vals[key] = num(f(z3.IntVal(i)))
         if label_vals:
             consts = {s: num(k) for s, k in CTX.strings.items()}
             names = assign_labels(label_vals, consts)
@@ -603,8 +733,12 @@ def snapshot(v, memo=None):
         r = Inst(v.cls, {k: snapshot(x, memo) for k, x in v.attrs.items()})
     else:
         from .arrays import AArr
+        from .seq import AL
         if isinstance(v, AArr):
             r = v.copy()
+        elif isinstance(v, AL):
+            import copy as _copy
+            r = _copy.copy(v)      # element mutation is tracked by the frozen-element check; this detects in-place list operations
         else:
             r = v
     memo[id(v)] = r
@@ -646,6 +780,9 @@ def same_state(a, b):
             return all(walk(p, q) for p, q in zip(x.data, y.data))
         if x is y:
             return True
+        from .seq import AL
+        if isinstance(x, AL) and isinstance(y, AL):
+            return x.n is y.n and x.present is y.present and x.value is y.value and x.kvar is y.kvar
         if isinstance(x, (AList, Opaque, FunctionVal, ClassVal, Builtin, ModuleVal)) or isinstance(y, (AList, Opaque, FunctionVal, ClassVal, Builtin, ModuleVal)):
             return x is y
         try:
